@@ -142,7 +142,15 @@ class Folder:
                 return int(base)
             return Unknown("attribute %s" % ast.unparse(e))
         if isinstance(e, (ast.Tuple, ast.List, ast.Set)):
-            vals = [f(x) for x in e.elts]
+            vals = []
+            for x in e.elts:
+                if isinstance(x, ast.Starred):
+                    sub = f(x.value)
+                    if is_unknown(sub) or not isinstance(sub, (list, tuple, set, frozenset, range, dict, str, bytes)):
+                        return Unknown("starred element %s" % ast.unparse(x)[:40])
+                    vals.extend(sub)
+                else:
+                    vals.append(f(x))
             if isinstance(e, ast.Tuple):
                 return tuple(vals)
             if isinstance(e, ast.Set):
@@ -227,6 +235,10 @@ class Folder:
                     return list(r) if name == "range" else r
                 except Exception as ex:
                     return Unknown(str(ex))
+            if isinstance(fn, ast.Attribute) and fn.attr in ("items", "keys", "values", "copy") and not e.keywords and not args:
+                base = f(fn.value)
+                if isinstance(base, dict) and not isinstance(base, Unknown):
+                    return dict(base) if fn.attr == "copy" else list(getattr(base, fn.attr)())
             if isinstance(fn, ast.Attribute) and fn.attr in ("format", "join", "lower", "upper", "encode", "split", "replace", "strip") and not e.keywords:
                 base = f(fn.value)
                 if isinstance(base, (str, bytes)) and not any(is_unknown(a) for a in args):
